@@ -526,6 +526,8 @@ def load_targets():
         t["tuple_structs"] += [n for n in d.get("tuple_structs", []) if n not in t["tuple_structs"]]
         t["fns_from"] += [n for n in d.get("fns_from", []) if n not in t["fns_from"]]
         if d.get("normalise"): t.setdefault("normalise", {}).update(d["normalise"])
+        if d.get("views"):
+            t["views"] = (t.get("views") or "") + "\n" + d["views"]
     for t in TARGETS: add(t, "TARGETS")
     for path in sorted(glob.glob(os.path.join(HERE, "fn_targets", "*.json"))):
         try:
